@@ -184,21 +184,43 @@ def cvr_lookup_rule(chk, name, fm):
 
 
 def _derives_from_text(expr, fn, text, stop, seen=()):
-    """is `expr` built from the expression `text` on every path: its own text (temporaries with one definition expanded) contains
-    it, or it reads a name *all* of whose definitions are built from it"""
-    if text in norm(expand_locals(expr, fn, stop=stop)):
-        return True
-    for n in ast.walk(expr):
-        if isinstance(n, ast.Name) and n.id not in seen and n.id not in stop:
+    """is `expr` a function of the expression `text` *alone*, on every path: after expanding single-definition temporaries,
+    every occurrence of the object `text` is rooted at (here: cvr_list[s]) is an occurrence of `text` itself (cvr_list[s].id, not
+    cvr_list[s].card_in_batch), at least one such occurrence exists, and every other name it reads is either a name all of whose
+    definitions are again functions of `text` alone, or not a local of the function at all (str, int, ...)"""
+    x = expand_locals(expr, fn, stop=stop)
+    base = text.rsplit(".", 1)[0]          # cvr_list[s]
+    attr = text.rsplit(".", 1)[1]          # id
+    found = [False]
+    ok = [True]
+    locals_ = {n.id for n in ast.walk(fn) if isinstance(n, ast.Name) and isinstance(n.ctx, ast.Store)} | {a.arg for a in fn.args.args}
+
+    def walk(n, par=None):
+        if norm(n) == base and isinstance(n, ast.Subscript):
+            if isinstance(par, ast.Attribute) and par.attr == attr:
+                found[0] = True
+            else:
+                ok[0] = False
+            return
+        if isinstance(n, ast.Name) and isinstance(n.ctx, ast.Load) and n.id in locals_ and n.id not in stop:
+            if n.id in seen:
+                ok[0] = False
+                return
             defs = []
-            for s in walk_local(fn):
-                if isinstance(s, ast.Assign):
-                    for t in s.targets:
-                        if any(isinstance(x, ast.Name) and x.id == n.id and isinstance(x.ctx, ast.Store) for x in ast.walk(t)):
-                            defs.append(s.value)
-            if defs and all(_derives_from_text(d, fn, text, stop, seen + (n.id,)) for d in defs):
-                return True
-    return False
+            for s_ in walk_local(fn):
+                if isinstance(s_, ast.Assign):
+                    for t in s_.targets:
+                        if any(isinstance(y, ast.Name) and y.id == n.id and isinstance(y.ctx, ast.Store) for y in ast.walk(t)):
+                            defs.append(s_.value)
+            if not defs or not all(_derives_from_text(d, fn, text, stop, seen + (n.id,)) for d in defs):
+                ok[0] = False
+            else:
+                found[0] = True
+            return
+        for c in ast.iter_child_nodes(n):
+            walk(c, n)
+    walk(x)
+    return ok[0] and found[0]
 
 
 def _derives_from(expr, loop, name):
